@@ -34,6 +34,8 @@ def rpm_valid_ops(deep=False):
     # the same entry again with other values (last call wins), and a nosrc source package
     ops.append(["rpms", "Server", "x86_64", "bash-0:4.3-1.fc23.x86_64", "other/path/bash.rpm", None, "binary", BASH_SRC])
     ops.append(["rpms", "Server", "x86_64", "blob-1:2-3.nosrc.rpm", "Server/source/SRPMS/blob.nosrc.rpm", None, "source", None])
+    # zero-padded epochs are the same package: one canonical key
+    ops.append(["rpms", "Server", "i386", "glibc-00:2.18-11.i686.rpm", "Server/i386/os/Packages/g/glibc.rpm", None, "binary", "glibc-000:2.18-11.src"])
     # an arch whose last letters are those of the '.rpm' suffix, name and srpm both given with the suffix
     ops.append(["rpms", "Client", "x86_64", "Packages/u/uboot-tools-0:2015.10-1.armhfp.rpm", "Client/x86_64/os/Packages/u/uboot.rpm", None,
                 "binary", "uboot-tools-0:2015.10-1.src.rpm"])
@@ -102,7 +104,7 @@ EXTRA_INVALID = [
     (["extra", "Server", "x86_64", "/abs/GPL", 1, {"sha256": "a" * 64}], "absolute-path"),
     (["extra", "Server", "x86_64", "Server/x86_64/os/GPL", 1, [["sha256", "a" * 64]]], "non-dict-checksums"),
 ]
-BASE_PATHS = ["Server/x86_64/os", "Server/x86_64/os/", "Server/x86_64/os//", "Other/tree", "Server/x86", ""]
+BASE_PATHS = ["Server/x86_64/os", "Server/x86_64/os/", "Server/x86_64/os//", "Other/tree", "Server/x86", "", "/Server/x86_64/os", "/"]
 
 BUILDERS = {
     "rpms": {"valid": rpm_valid_ops, "invalid": RPM_INVALID, "model": M.rpms_add, "attr": "rpms",
@@ -317,8 +319,8 @@ def describe(tier):
                 "koji tag, the same module in another cell with the very same list object; extra files: 4 entries incl. repeated adds) and ONE invalid call per refusal condition (rpms 14, modules "
                 "10, extra files 5).  All histories up to the depth, deduplicated on the model state; after every call the public "
                 "mapping must equal the reference layout, an invalid call must raise ValueError/TypeError and leave a deep snapshot "
-                "of the mapping unchanged; dump_for_tree for 6 base paths (exact, trailing '/', '//', unrelated, textual non-component "
-                "prefix, empty) for every cell, called in sequence on one object at every extra-files state (outputs equal the model's, the "
+                "of the mapping unchanged; dump_for_tree for 8 base paths (exact, trailing '/', '//', unrelated, textual non-component "
+                "prefix, empty, absolute, '/') for every cell, called in sequence on one object at every extra-files state (outputs equal the model's, the "
                 "manifest is unchanged by the calls).  Non-trivial: a history of >= 2 calls.",
         "bound": "history depth <= %d (extra files %d)" % (depth(tier), depth(tier) + 1),
         "exhaustive": True,
